@@ -112,6 +112,32 @@ def check_text(res, tier):
             if got != want:
                 problems.append(("chunking", "bytes %r charset %r chunks %r: as_text gives %r, whole-string decoding gives %r" % (data, charset, chunks, got, want)))
         res.distinct.add(obs_hash(("raw", data, charset)))
+    # two text contents decoded in lock-step (each keeps its own decoder state)
+    for ta, tb in (("é€a", "\U0001F600é"), ("aé", "€")):
+        for charset in ("utf8", "utf-16"):
+            da, db = ta.encode(charset), tb.encode(charset)
+            for cuts_a in compositions(len(da), 2):
+                for cuts_b in compositions(len(db), 2):
+                    ca = C.Content(ContentType("text", "plain", {"charset": charset}), lambda v=cut(da, cuts_a): list(v))
+                    cb = C.Content(ContentType("text", "plain", {"charset": charset}), lambda v=cut(db, cuts_b): list(v))
+                    res.evaluations += 1
+                    res.states += 1
+                    try:
+                        ia, ib = ca.iter_text(), cb.iter_text()
+                        oa, ob = [], []
+                        for _ in range(40):
+                            xa, xb = next(ia, None), next(ib, None)
+                            if xa is None and xb is None:
+                                break
+                            if xa is not None:
+                                oa.append(xa)
+                            if xb is not None:
+                                ob.append(xb)
+                        got = ("".join(oa), "".join(ob))
+                    except Exception as e:
+                        got = "%s: %s" % (type(e).__name__, e)
+                    if got != (ta, tb):
+                        problems.append(("chunking-interleaved", "two %s contents %r / %r (chunks %r / %r) decoded in lock-step give %r" % (charset, ta, tb, cut(da, cuts_a), cut(db, cuts_b), got)))
     res.add_sample({"text": "aé€", "charset": "utf-16", "chunks": [repr(x) for x in cut("aé€".encode("utf-16"), (1, 3, 5))]})
     return problems
 
